@@ -77,28 +77,41 @@ var contracts = map[string]*Contract{
 	"(time.Time).Add":     {Det: true},
 	"(time.Time).Format":  {Det: true},
 	// --- std: fmt / errors / strings / bytes
-	"fmt.Errorf":                     {Fresh: true, NonNil: []int{0}, Note: "non-nil error"},
-	"errors.New":                     {Fresh: true, NonNil: []int{0}, Note: "non-nil error"},
-	"fmt.Sprintf":                    {Fresh: true, Det: true},
-	"strings.ToLower":                {Det: true},
-	"bytes.Equal":                    {Det: true},
-	"bytes.TrimRight":                {Det: true, Note: "result is a prefix of the argument: 0 <= len(result) <= len(arg)"},
-	"bytes.NewReader":                {Fresh: true, NonNil: []int{0}},
-	"(*bytes.Buffer).Bytes":          {},
-	"(*bytes.Buffer).Len":            {},
-	"(*bytes.Buffer).String":         {},
-	"(*bytes.Buffer).WriteByte":      {Writes: []int{0}},
-	"(*bytes.Buffer).WriteString":    {Writes: []int{0}},
-	"(*bytes.Buffer).WriteRune":      {Writes: []int{0}},
-	"(*strings.Builder).Len":         {},
-	"(*strings.Builder).String":      {},
-	"(*strings.Builder).Grow":        {Writes: []int{0}},
-	"(*strings.Builder).WriteByte":   {Writes: []int{0}},
-	"(*strings.Builder).WriteRune":   {Writes: []int{0}},
-	"(*strings.Builder).WriteString": {Writes: []int{0}},
-	"strings.Join":                   {Det: true},
-	"fmt.Fprintf":                    {Writes: []int{0}},
-	"io.WriteString":                 {Writes: []int{0}, Note: "w.Write([]byte(s)) unless w has WriteString"},
+	"fmt.Errorf":                                   {Fresh: true, NonNil: []int{0}, Note: "non-nil error"},
+	"errors.New":                                   {Fresh: true, NonNil: []int{0}, Note: "non-nil error"},
+	"fmt.Sprintf":                                  {Fresh: true, Det: true},
+	"strings.ToLower":                              {Det: true},
+	"bytes.Equal":                                  {Det: true},
+	"bytes.TrimRight":                              {Det: true, Note: "result is a prefix of the argument: 0 <= len(result) <= len(arg)"},
+	"encoding/xml.NewDecoder":                      {Fresh: true, NonNil: []int{0}, Note: "decoder over the reader; Decode(v) on a fresh decoder is Unmarshal(all bytes, v)"},
+	"(*encoding/xml.Decoder).Decode":               {Writes: []int{1}, Note: "canonicalised to xml.Unmarshal when the reader's bytes are known"},
+	"(*encoding/base64.Encoding).DecodedLen":       {Det: true, Note: "0 <= DecodedLen(n) <= n"},
+	"(*encoding/base64.Encoding).EncodedLen":       {Det: true, Note: "0 <= EncodedLen(n) <= 4*(n/3+1)"},
+	"(*encoding/base64.Encoding).Decode":           {Writes: []int{1}, Note: "canonicalised to DecodeString for a destination of exactly DecodedLen(len(src))"},
+	"(*encoding/base64.Encoding).Encode":           {Writes: []int{1}, Note: "canonicalised to EncodeToString for a destination of exactly EncodedLen(len(src))"},
+	"(time.Time).In":                               {Det: true, Note: "same instant in another location; In(time.UTC) is UTC()"},
+	"time.ParseInLocation":                         {Det: true, Note: "for layouts that carry a zone the location does not influence the instant"},
+	"(time.Time).AppendFormat":                     {Writes: []int{1}, Note: "Format appended to b"},
+	"net/url.ParseQuery":                           {Fresh: true, Note: "u.Query() is ParseQuery(u.RawQuery) with the error dropped"},
+	"(*github.com/beevik/etree.Document).WriteTo":  {Writes: []int{1}, Note: "WriteToBytes written to w"},
+	"(*github.com/beevik/etree.Document).ReadFrom": {TreeMutator: true, Note: "ReadFromBytes over the reader's bytes"},
+	"github.com/beevik/etree.NewDocumentWithRoot":  {NonNil: []int{0}, Fresh: true, Note: "NewDocument() + SetRoot(e)"},
+	"bytes.NewReader":                              {Fresh: true, NonNil: []int{0}},
+	"(*bytes.Buffer).Bytes":                        {},
+	"(*bytes.Buffer).Len":                          {},
+	"(*bytes.Buffer).String":                       {},
+	"(*bytes.Buffer).WriteByte":                    {Writes: []int{0}},
+	"(*bytes.Buffer).WriteString":                  {Writes: []int{0}},
+	"(*bytes.Buffer).WriteRune":                    {Writes: []int{0}},
+	"(*strings.Builder).Len":                       {},
+	"(*strings.Builder).String":                    {},
+	"(*strings.Builder).Grow":                      {Writes: []int{0}},
+	"(*strings.Builder).WriteByte":                 {Writes: []int{0}},
+	"(*strings.Builder).WriteRune":                 {Writes: []int{0}},
+	"(*strings.Builder).WriteString":               {Writes: []int{0}},
+	"strings.Join":                                 {Det: true},
+	"fmt.Fprintf":                                  {Writes: []int{0}},
+	"io.WriteString":                               {Writes: []int{0}, Note: "w.Write([]byte(s)) unless w has WriteString"},
 	// --- std: encoding
 	"(*encoding/base64.Encoding).DecodeString":   {Fresh: true, Det: true, NonNil: []int{0}, Note: "the result slice is made by the call: non-nil even when empty"},
 	"(*encoding/base64.Encoding).EncodeToString": {Fresh: true, Det: true},
